@@ -199,12 +199,26 @@ def trace_encode(fx, version, level, boosted, mask_in=None, eci=False, sa_info=N
     genv_box = [None]
     M0, M1 = ['M0'], ('M1',)
     over = dict(extra or {})
+    # a level booster with another interface than (version, error, segments, eci, is_sa) -> level: its stand-in cannot answer for
+    # it.  The repository's own booster then runs (recorded), on a Segments model that needs exactly the capacity of the level the
+    # rule wants it to arrive at.
+    boost_by_model = None
+    try:
+        bpar = _src.all_params(fx.fn('encoder', 'boost_error_level'))
+    except Unknown:
+        bpar = None
+    if bpar != ['version', 'error', 'segments', 'eci', 'is_sa'] and 'boost_error_level' not in real and boost_error:
+        if segments is not None and not isinstance(segments, SegmentsModel):
+            raise Unknown(f'boost_error_level has another interface than the rules stand in for: {bpar}')
+        cap_tab = ev.module_consts(fx.forest, 'consts').get('SYMBOL_CAPACITY')
+        boost_by_model = cap_tab[version][None if boosted is None else lv[boosted]]
+        run_real = tuple(run_real) + ('boost_error_level',)
     if not real_write_segment:
         over['write_segment'] = stage('write_segment', grow=37)
     elif 'write_segment' in run_real:
         over['write_segment'] = stage('write_segment')
     if 'boost_error_level' not in real:
-        over['boost_error_level'] = stage('boost_error_level', None if boosted is None else lv[boosted])
+        over['boost_error_level'] = stage('boost_error_level', None if boosted is None else lv[boosted]) if boost_by_model is None else stage('boost_error_level', 0)
     genv_over = dict(
         Buffer=B,
         write_terminator=stage('write_terminator', grow=3), write_padding_bits=stage('write_padding_bits', grow=5),
@@ -223,6 +237,8 @@ def trace_encode(fx, version, level, boosted, mask_in=None, eci=False, sa_info=N
         segs = SegmentsModel([SegModel(md['numeric'], None) for _ in range(nsegs)])
     else:
         segs = segments if segments is not None else SegmentsModel([SegModel(md['byte'], 'iso-8859-1') for _ in range(nsegs)])
+    if boost_by_model is not None:
+        segs._blwo = lambda version_, eci_='<not passed>', is_sa_=False, _n=boost_by_model: _n
     try:
         have = _src.all_params(fx.fn('encoder', '_encode'))
     except Unknown:
@@ -460,7 +476,10 @@ class SymbolTrace:
         # the booster call for this symbol: the one between the previous final message and this one
         pos = calls.index(mf)
         prev = max([calls.index(c) for c in fms if calls.index(c) < pos], default=-1)
-        bo = [c for c in calls[prev + 1:pos] if c[0] == 'boost_error_level']
+        # ... or, wherever it was made, the one that was asked about the Segments object of this symbol
+        by_object = [c for c in calls[:pos] if c[0] == 'boost_error_level' and segments is not None
+                     and any(x is segments for x in list(c[1]) + list(c[2].values()))]
+        bo = by_object if by_object else [c for c in calls[prev + 1:pos] if c[0] == 'boost_error_level']
         if len(bo) > 1:
             sym['problems'].append(f'{len(bo)} x boost_error_level for one symbol')
         mine = on_buf + on_m0 + on_m1 + [fm, mf, code_entry] + bo[:1] + ([mk[j - 1]] if j is not None and 0 < j <= len(mk) else [])
